@@ -166,9 +166,32 @@ def flat_case(item):
     info = S.ALL_INFOS[sid]
     sc = S.scen_for_suite(v, sid, etm)
     opts = opts or {}
+    if opts.get("resume") == "id":
+        sc.cache = True
+    elif opts.get("resume") == "ticket":
+        sc.tickets = True
     pair, out = established(sc, seed, opts.get("cset"), opts.get("sset"))
     rec = {"name": sc.name, "opts": repr(sorted(opts.items())), "fails": [],
            "ops": 0, "records": 0, "neg": None}
+    if pair is not None and opts.get("resume"):
+        # the same exchange on a connection resumed from this one
+        cache = getattr(pair, "cache", None)
+        # (a byte each way first: TLS 1.3 tickets arrive after the handshake)
+        pair.write("S", b"x")
+        pair.read("C", None, 1)
+        pair.write("C", b"y")
+        pair.read("S", None, 1)
+        sess = pair.c.session
+        pair.close("C")
+        pair.read("S", None, 1)
+        pair.close("S")
+        pair, out = S.connect(sc, seed=seed + 1, session=sess, cache=cache)
+        if not (out["C"].status == "ok" and out["S"].status == "ok"):
+            pair = None
+        elif not pair.c.resumed:
+            rec["neg"] = "not-resumed"
+            rec["fails"].append({"err": "resumption did not take place"})
+            return rec
     if pair is None:
         rec["neg"] = "handshake-failed:%r/%r" % (out["C"], out["S"])
         return rec
@@ -181,6 +204,15 @@ def flat_case(item):
     view0["cl_app0"] = view0.get("cl_app")
     view0["sr_app0"] = view0.get("sr_app")
     crand, srand = pair.c._clientRandom, pair.c._serverRandom
+    # HandshakeSettings.padding_cb never reaches the record layer (it is
+    # stored on the socket wrapper), so the callback is installed where the
+    # record layer reads it; the witness below must then see padded records
+    padded = False
+    for ep, key in ((pair.c, "cset"), (pair.s, "sset")):
+        cb = (opts.get(key) or {}).get("padding_cb")
+        if cb is not None and v >= (3, 4):
+            ep._recordLayer.padding_cb = cb
+            padded = True
     if opts.get("c_user") is not None:
         pair.c.recordSize = opts["c_user"]
     if opts.get("s_user") is not None:
@@ -203,6 +235,13 @@ def flat_case(item):
     rec["records"] = len(w["c2s"]) + len(w["s2c"])
     rec["maxrec"] = max([il for d in ("c2s", "s2c")
                          for (_, _, il, _) in w[d]] or [0])
+    if padded:
+        pads = [il - len(pt) - 1 for d in ("c2s", "s2c")
+                for (_, pt, il, _) in w[d]]
+        rec["padded_records"] = sum(1 for x in pads if x > 0)
+        if not rec["padded_records"]:
+            rec["fails"].append({"err": "padding callback installed but no "
+                                 "record on the wire is padded (vacuous)"})
     for e in errs[:5]:
         rec["fails"].append({"err": e})
     return rec
@@ -429,6 +468,18 @@ def run(res, tier, seed):
                 if cu == 1 or su == 1:
                     ll = [0, 1, 2, 40]
                 cfgs.append((v, sid, etm, ll, seed, opts))
+        # the limits also hold on a resumed connection (session ID / ticket)
+        for how in ("id", "ticket"):
+            for (cr, sr) in ((64, 64), (65, 512), (512, 65)):
+                opts = {"cset": {"record_size_limit": cr},
+                        "sset": {"record_size_limit": sr},
+                        "c_user": None, "s_user": None, "resume": how}
+                if how == "id" and v >= (3, 4):
+                    continue
+                if how == "ticket" and v == (3, 0):
+                    continue        # no extensions, no tickets
+                cfgs.append((v, sid, etm, [0, 1, 63, 64, 65, 129, 513], seed,
+                             opts))
         if v >= (3, 4):
             for name in ("const7", "tolimit"):
                 opts = {"cset": {"padding_cb": PADS[name]},
